@@ -464,17 +464,18 @@ func init() {
 
 	eng.Register(&eng.Check{
 		ID: "C06", Level: "exploration",
-		Rule: "names = every string of ≤2 (quick) / ≤3 (thorough, 3 shapes) symbols over Σ_s (66 symbols: all key/value specials, whitespace kinds, keywords in several cases, non-ASCII and case-folding-special runes), written with the generator's quoting and as a raw double-quoted key, placed in 6 program shapes (alone, nested under a, as container, as connection endpoint, inside a container's connection, next to a case/width variant); compilable programs only; oracle: ID / AbsID re-parse to the name path, AbsIDs distinct ignoring case, each connection ID names exactly one connection and resolves through d2oracle.GetEdge/GetObj",
+		Rule: "names = every string of ≤2 (quick) / ≤3 (thorough, 3 shapes) symbols over Σ_s (66 symbols: all key/value specials, whitespace kinds, keywords in several cases, non-ASCII and case-folding-special runes), written with the generator's quoting, as a raw double-quoted key and as bare unquoted text, placed in 8 program shapes (alone, nested under a, as container, as connection endpoint, inside a container's connection, referenced twice by connections, declared then connected, container then nested references); compilable programs only; oracle: ID / AbsID re-parse to the name path, AbsIDs distinct ignoring case, each connection ID names exactly one connection and resolves through d2oracle.GetEdge/GetObj",
 		Oracles: map[string]eng.Oracle{"ids": c06Oracle},
 		Run: func(w *eng.W) {
-			shapes := []string{"%s", "a.%s", "%s.b", "%s -> b", "a: {%s -> b}", "b -> %s; b -> %s"}
+			shapes := []string{"%s", "a.%s", "%s.b", "%s -> b", "a: {%s -> b}", "b -> %s; b -> %s", "%s\n%s -> b", "%s: {c}\n%s.d\nx.%s -> x.%s.e"}
 			kmax := w.Pick(2, 3)
 			for k := 1; k <= kmax; k++ {
 				k := k
 				w.Phase(fmt.Sprintf("name-symbols<=%d", k), func() {
 					Seqs(sigmaS, k, func(s []string) {
 						name := Join(s)
-						for _, spelled := range []string{genKey(name), quoteRaw(name)} {
+						// third spelling: the symbols as they are (unquoted source text; whatever name the parser reads from it)
+						for _, spelled := range []string{genKey(name), quoteRaw(name), name} {
 							for si, sh := range shapes {
 								if k == 3 && si >= 3 {
 									continue
